@@ -768,9 +768,11 @@ def initState (s : Str) : State :=
 def lex (cfg : Cfg) (s : Str) : Result := lexLoop cfg s (s.length + 2) (initState s) 0
 
 /-- `Lexer(s, preprocessor=ps).parse()`: `parse` first rewrites `self.text` with every preprocessor in turn, *then*
-    sets `textlength` to the length of what it is going to lex (`Generated.LexerCfg.textlengthIsLexedLength`,
-    obligation `textlength_is_lexed_length` in Props/C01) and lexes that text: the source the tokens account for is
-    the preprocessed text. -/
+    sets `textlength` to the length of what it is going to lex, and lexes that text: the source the tokens account
+    for is the preprocessed text.  The model HARD-WIRES this order (`lex` measures the text it is given; it does
+    not consult a flag): the regenerated fact `Generated.LexerCfg.textlengthIsLexedLength` only guards it – the
+    obligation `textlength_is_lexed_length` in Props/C01 stops building when the assignment is moved in /repo, and
+    the preprocessor streams of the harness then show the disagreement. -/
 def parseWith (cfg : Cfg) (ps : List (Str → Str)) (s : Str) : Result := lex cfg (ps.foldl (fun t p => p t) s)
 
 /-- the state the lexer is in when its cursor stands at `p` with the given stacks (for per-matcher probes) -/
